@@ -86,7 +86,8 @@ pub fn check_lib(h: &LHistory) -> CheckResult {
 }
 
 #[derive(Clone, Debug, Serialize, Deserialize)]
-pub enum COp { Enc, PassEnc, KeyGen, ChangePass, ChangePassSame, KeyGenAppend }
+pub enum COp { Enc, PassEnc, KeyGen, ChangePass, ChangePassSame, KeyGenAppend, /// `key change-pass` given 2 or 3 locked keys at once: whatever locked keys it prints carry salts of their own
+    ChangePassMany(u8) }
 #[derive(Clone, Debug, Serialize, Deserialize)]
 pub struct CHistory { pub ops: Vec<COp> }
 pub fn check_cli(h: &CHistory) -> CheckResult {
@@ -110,6 +111,12 @@ pub fn check_cli(h: &CHistory) -> CheckResult {
                 let t = String::from_utf8(sb.read("many.txt").ok_or("no key file")?).map_err(|e| e.to_string())?; let kr = Keyring::new(&t).map_err(|e| e.to_string())?; let k = kr.get_key(&name).ok_or("key missing")?;
                 let esk = k.private_key.as_ref().ok_or("no private key")?; let blob = kspec::base64_decode(esk.as_str()).ok_or("bad base64")?; fresh(&blob[4..36], "locked-key salt (key appended to an existing file)", idx)?;
                 let sk = Keyring::unlock_private_key(esk, b"pw").map_err(|_| "generated key does not unlock")?; fresh(sk.as_bytes(), "generated private key", idx)?; }
+            COp::ChangePassMany(k) => { static SAME_PW: std::sync::OnceLock<[crate::cli::CliIdent; 2]> = std::sync::OnceLock::new();
+                let more = SAME_PW.get_or_init(|| [crate::cli::make_ident("m1", 201, &id.carol.password), crate::cli::make_ident("m2", 202, &id.carol.password)]);
+                let keys = [&id.carol.esk, &more[0].esk, &more[1].esk]; let mut a = vec!["key", "change-pass"]; for e in keys.iter().take(2 + (*k as usize % 2)) { a.push(e.as_str()); } a.push("--env-pass");
+                // all of them are locked under the same password
+                let r = sb.cmd(&a).env("KESTREL_PASSWORD", &id.carol.password).env("KESTREL_NEW_PASSWORD", "new").run(); ensure!(r.signal.is_none() && !r.timed_out, "change-pass with several keys ended abnormally: {}", r.describe());
+                for tok in r.stdout_s().split(|c: char| c.is_whitespace() || c == '=').filter(|t| t.len() == 112) { if let Some(blob) = kspec::base64_decode(tok) { if blob.len() == 84 { fresh(&blob[4..36], "salt of a locked key printed by change-pass given several keys", idx)?; } } } }
             COp::ChangePassSame => { let r = sb.cmd(&["key", "change-pass", &id.carol.esk, "--env-pass"]).env("KESTREL_PASSWORD", &id.carol.password).env("KESTREL_NEW_PASSWORD", &id.carol.password).run(); ensure!(r.code == Some(0), "change-pass failed: {}", r.describe());
                 let out = r.stdout_s(); let l = out.lines().find(|l| l.starts_with("PrivateKey = ")).ok_or("no key printed")?; let blob = kspec::base64_decode(l["PrivateKey = ".len()..].trim()).ok_or("bad base64")?;
                 ensure!(blob.len() == 84 && blob[4..36] != kspec::base64_decode(&id.carol.esk).unwrap()[4..36], "change-pass to the same password kept the old salt"); fresh(&blob[4..36], "change-pass salt", idx)?; }
@@ -141,7 +148,7 @@ pub fn run(ctx: &Ctx) {
     ctx.sse_vec("nonce_per_record_long_streams", "streams of 300 and 66000 one-byte chunks: record i under nonce i only", vec![LongNonce { n: 300 }, LongNonce { n: 66_000 }], check_long_nonce);
     ctx.pbt("library_histories", ctx.n(2_000, 60_000), || (proptest::collection::vec(prop_oneof![6 => (0u8..3, proptest::option::of(0u8..3), proptest::option::of(0u8..3)).prop_map(|(input, e, p)| LOp::Enc { input, e, p }), 1 => Just(LOp::Generate), 1 => (0u8..3, any::<bool>(), any::<u8>()).prop_map(|(input, side_flush, k)| LOp::EncInterrupted { input, side_flush, k })], 2..200), any::<u64>()).prop_map(|(ops, seed)| LHistory { ops, seed }), check_lib);
     ctx.shrink_iters.store(20, std::sync::atomic::Ordering::Relaxed);
-    ctx.pbt("cli_histories", ctx.n(32, 600), || proptest::collection::vec(prop_oneof![3 => Just(COp::Enc), 2 => Just(COp::PassEnc), 2 => Just(COp::KeyGen), 2 => Just(COp::ChangePass), 1 => Just(COp::ChangePassSame), 2 => Just(COp::KeyGenAppend)], 2..9).prop_map(|ops| CHistory { ops }), check_cli);
+    ctx.pbt("cli_histories", ctx.n(32, 600), || proptest::collection::vec(prop_oneof![3 => Just(COp::Enc), 2 => Just(COp::PassEnc), 2 => Just(COp::KeyGen), 2 => Just(COp::ChangePass), 1 => Just(COp::ChangePassSame), 2 => Just(COp::KeyGenAppend), 1 => any::<u8>().prop_map(COp::ChangePassMany)], 2..9).prop_map(|ops| CHistory { ops }), check_cli);
     let (ones, bits) = (ONES.load(Ordering::Relaxed) as f64, BITS.load(Ordering::Relaxed) as f64);
     if bits > 0.0 && ctx.replay.is_none() {
         let z = (ones - bits / 2.0) / (bits / 4.0).sqrt();
